@@ -38,10 +38,10 @@ def random_scenario(rng: random.Random) -> dict:
                 if rng.random() < 0.5:
                     acts[str(t)] = [{"pair": rng.choice(pairs), "op": rng.choice(["buy", "sell"]), "amount": rng.randint(1, 4),
                                      "type": rng.choice(["market", "market", "limit"])} for _ in range(rng.randint(1, 2))]
-            handlers.append({"id": hid, "pair": p, "actions": acts, "yields": 0})
+            handlers.append({"id": hid, "pair": p, "actions": acts, "yields": 0, "via_signal": rng.random() < 0.3})
     order_event_orders = rng.random() < 0.4
     # the order in which the application wires things up
-    wiring = [("source", s) for s in range(nsrc)] + [("handler", h["id"]) for h in handlers]
+    wiring = [("source", s) for s in range(nsrc)] + [("handler", h["id"]) for h in handlers] + [("signals", 0)]
     rng.shuffle(wiring)
     return {"pairs": pairs, "bars": bars, "handlers": handlers, "wiring": wiring, "order_event_orders": order_event_orders,
             "usd": rng.choice([30, 100, 400, 100000]), "base": rng.choice([0, 3, 1000]), "suspending": False}
@@ -89,13 +89,27 @@ async def run_async(S: dict, maxc: int) -> dict:
         except Exception as e:  # noqa: BLE001
             orders["rej-" + key] = {"key": key + ":rejected:" + type(e).__name__, "at": at, "fills": [], "filled": Decimal(0), "quote": Decimal(0)}
 
+    # strategies may act through a trading signal source (a derived source, as in the samples): the strategy pushes a
+    # signal while it handles the bar, a position manager subscribed to the signals places the order
+    signals = bs.TradingSignalSource(d)
+    pending_signal = {}
+
+    async def on_signal(sig):
+        key, a = pending_signal.pop(id(sig))
+        await place(key, a)
+
     def make_handler(h):
         async def on_bar(ev):
             t = tick(ev.when)
             for k, a in enumerate(h["actions"].get(str(t), [])):
                 for _ in range(h["yields"]):
                     await asyncio.sleep(0)
-                await place(f"h{h['id']}@{t}#{k}", a)
+                if h.get("via_signal"):
+                    sig = bs.TradingSignal(ev.when, bs.Position.LONG if a["op"] == "buy" else bs.Position.SHORT, pair_obj[a["pair"]])
+                    pending_signal[id(sig)] = (f"h{h['id']}@{t}#{k}", a)
+                    signals.push(sig)
+                else:
+                    await place(f"h{h['id']}@{t}#{k}", a)
         return on_bar
 
     async def on_order_event(ev):
@@ -115,7 +129,9 @@ async def run_async(S: dict, maxc: int) -> dict:
         return sum(map(ord, k))
     hmap = {h["id"]: h for h in S["handlers"]}
     for kind, x in S["wiring"]:
-        if kind == "source":
+        if kind == "signals":
+            signals.subscribe_to_trading_signals(on_signal)
+        elif kind == "source":
             ex.add_bar_source(sources[x])
         else:
             ex.subscribe_to_bar_events(pair_obj[hmap[x]["pair"]], make_handler(hmap[x]))
